@@ -136,6 +136,7 @@ func verifyFunction(l *Loaded, specs *Specs, ct *Contract) (rep *FuncReport, w *
 		}
 		o := w.oblige("ensures", "ensures."+lbl, exit.cond, w.evalBool(env, en.Expr), en.Star, props)
 		o.Pos = en.Line
+		o.Clause = en
 		if w.replay != nil {
 			for _, k := range w.replay.order {
 				o.ValNames = append(o.ValNames, k)
@@ -239,6 +240,21 @@ func (o *Obligation) query(w *World) string {
 		b.WriteByte('\n')
 	}
 	body := w.sc.prefix(o.Mark) + "\n" + o.Goal.S
+	// definitions of the prelude used by the body count as part of it
+	for changed, seen := true, map[int]bool{}; changed; {
+		changed = false
+		for i, ln := range w.pre {
+			if seen[i] || !strings.HasPrefix(ln, "(define-fun") {
+				continue
+			}
+			f := strings.Fields(ln)
+			if len(f) > 1 && strings.Contains(body, "("+f[1]+" ") {
+				seen[i] = true
+				body += "\n" + ln
+				changed = true
+			}
+		}
+	}
 	for i, ax := range w.axioms {
 		for _, sy := range ax.syms {
 			if strings.Contains(body, "("+sy+" ") {
